@@ -141,6 +141,10 @@ def run(ctx):
         if not good:
             ctx.violation('serialisation-writes-the-layout', sub, i, wit, mech=f"layout-not-written:{ext}")
             return
+        # the writers given `ty=` write that layout too (a Converter used directly, io.write_json / write_yaml to a stream)
+        from .. import entrypoints
+        if not entrypoints.check_output_agreement(ctx, 'serialisation-writes-the-layout', sub, i, T, x, d.val, describe(ty)):
+            return
         S = ty.a[vi].x['spec']
         if S.opt('out_format') not in S.opt('in_format') or any(S.is_kw(f) and f.init and not f.exclude for f in S.fields if f.name != '_KW_ONLY_') and S.opt('out_format') == 'tuple':
             return   # C05's scope / known findings, not a layout matter
@@ -202,6 +206,16 @@ def run(ctx):
         ctx.case(('duplicate-tags', str(ty.x['external']), out.kind))
         if out.kind == 'value' or not isinstance(out.exc, TypeError):
             ctx.violation('duplicate-tags-refused', 'dup', i, {'type': describe(ty), 'make_converter': out.brief()}, mech='duplicate-tags-accepted')
+        else:
+            ctx.count('duplicate_tag_types_refused')
+        # the same union as the type of a dataclass field: refused when the class, or at the latest its converter, is BUILT
+        def holder():
+            H = type(f"KDupHolder{i}", (env.PaneBase,), {'__annotations__': {'f': T2, 'n': int}, 'n': 0, '__module__': __name__})
+            return env.make_converter(H)
+        out2 = observe(holder)
+        if out2.kind == 'value' or not isinstance(out2.exc, TypeError):
+            ctx.violation('duplicate-tags-refused', 'dup', i, {'type': 'class with a field of type ' + describe(ty), 'class statement + make_converter': out2.brief()},
+                          mech='duplicate-tags-accepted:as-field-type')
         else:
             ctx.count('duplicate_tag_types_refused')
 
